@@ -74,6 +74,12 @@ long vp_out_count(void);
 extern int vp_record_bytes;        /* 0: record only lengths (flood mode) */
 extern int vp_in_tick;             /* set by drivers while inside automata_tick */
 
+/* raw copies of the frames transmitted during the current request (for PIPE) */
+#define VP_MAX_TXS 2048
+typedef struct { uint8_t *b; size_t n; long item; } vp_txrec;
+extern vp_txrec vp_txs[VP_MAX_TXS];
+extern int      vp_ntx;
+
 uint8_t vp_data_byte(int salt, size_t i);
 long vp_total_live(void);
 
